@@ -201,7 +201,7 @@ func (pd *perRawBitData) appendBitString(bytes []byte, bitsLength uint64, extens
 
 	var byteOffset, partOfRawLength uint64
 	for {
-		if rawLength > 65536 {
+		if rawLength >= 65536 {
 			partOfRawLength = 65536
 		} else if rawLength >= 16384 {
 			partOfRawLength = rawLength & 0xc000
@@ -223,7 +223,8 @@ func (pd *perRawBitData) appendBitString(bytes []byte, bitsLength uint64, extens
 		perTrace(2, fmt.Sprintf("Encoded BIT STRING (length = %d): 0x%0x", partOfRawLength,
 			bytes[byteOffset:byteOffset+sizes]))
 		rawLength -= (partOfRawLength - uint64(lb))
-		if rawLength > 0 {
+		if rawLength > 0 || partOfRawLength >= 16384 {
+			// X.691 10.9.3.8: a fragment of n*16K items is always followed by another length (zero if nothing is left)
 			byteOffset += sizes
 		} else {
 			pd.bitsOffset += uint(partOfRawLength & 0x7)
@@ -291,7 +292,7 @@ func (pd *perRawBitData) appendOctetString(bytes []byte, extensive bool, lowerBo
 
 	var byteOffset, partOfRawLength uint64
 	for {
-		if rawLength > 65536 {
+		if rawLength >= 65536 {
 			partOfRawLength = 65536
 		} else if rawLength >= 16384 {
 			partOfRawLength = rawLength & 0xc000
@@ -312,7 +313,8 @@ func (pd *perRawBitData) appendOctetString(bytes []byte, extensive bool, lowerBo
 		perTrace(2, fmt.Sprintf("Encoded OCTET STRING (length = %d): 0x%0x", partOfRawLength,
 			bytes[byteOffset:byteOffset+partOfRawLength]))
 		rawLength -= (partOfRawLength - uint64(lb))
-		if rawLength > 0 {
+		if rawLength > 0 || partOfRawLength >= 16384 {
+			// X.691 10.9.3.8: a fragment of n*16K items is always followed by another length (zero if nothing is left)
 			byteOffset += partOfRawLength
 		} else {
 			// pd.appendAlignBits()
@@ -565,7 +567,7 @@ func (pd *perRawBitData) appendOpenType(v reflect.Value, params fieldParameters)
 
 	var byteOffset, partOfRawLength uint64
 	for {
-		if rawLength > 65536 {
+		if rawLength >= 65536 {
 			partOfRawLength = 65536
 		} else if rawLength >= 16384 {
 			partOfRawLength = rawLength & 0xc000
@@ -585,7 +587,8 @@ func (pd *perRawBitData) appendOpenType(v reflect.Value, params fieldParameters)
 		perTrace(2, fmt.Sprintf("Encoded OpenType RawData (length = %d): 0x%0x", partOfRawLength,
 			openTypeBytes[byteOffset:byteOffset+partOfRawLength]))
 		rawLength -= partOfRawLength
-		if rawLength > 0 {
+		if rawLength > 0 || partOfRawLength >= 16384 {
+			// X.691 10.9.3.8: a fragment of n*16K items is always followed by another length (zero if nothing is left)
 			byteOffset += partOfRawLength
 		} else {
 			pd.appendAlignBits()
